@@ -110,9 +110,14 @@ class ValidRange(Adapter):
                            dtype=f"datetime64[{unit}]")
             span = (None if lo is None else np.datetime64(int(lo), "s"),
                     None if hi is None else np.datetime64(int(hi), "s"))
+            if case.get("dunit"):
+                # the caller asks for a FINER unit than the data carry, with bounds that need it (half seconds)
+                span = tuple(None if b is None else np.datetime64(int(F(b) * 1000), "ms") for b in (lo, hi))
         kw = {"inp": inp, "valid_span": span}
         if case.get("typed"):
             kw["dtype"] = inp.dtype          # the caller states the type (times: in the data's own unit)
+        if case.get("dunit"):
+            kw["dtype"] = np.dtype(f"datetime64[{case['dunit']}]")
         if case["si"] is not None:
             kw["start_inclusive"] = case["si"]
         if case["ei"] is not None:
@@ -150,6 +155,13 @@ def gen_valid(tier, rng):
                         cases.append(dict(cases[-1], infinite=True))
                     if kind == "datetime" and len(xs) in (1, 3, 4):
                         cases.append(dict(cases[-1], typed=True, unit=rng.choice(["ns", "s", "ms", "us"])))
+    # an explicit dtype that differs from the data's own: whole-second data, bounds on half seconds, dtype in ms / us
+    for lo, hi in [(F(5, 2), F(17, 2)), (F(3, 2), None), (None, F(15, 2)), (F(2), F(8))]:
+        pts = [F(v) for v in range(0, 11)]
+        for si, ei in incl:
+            for xs in [pts + [None], [rng.choice(pts + [None]) for _ in range(6)]]:
+                cases.append({"kind": "datetime", "xs": frs(xs), "lo": core.fr(lo), "hi": core.fr(hi), "si": si, "ei": ei,
+                              "unit": "s", "dunit": rng.choice(["ms", "us"])})
     # times far from the epoch, in a coarse unit (nanoseconds only reach 1677 .. 2262): typed calls keep the unit
     Y1500, Y2000, Y2300, Y9999 = -14831769600, 946684800, 10413792000, 253402214400
     for lo, hi in [(Y2000, Y9999), (Y1500, Y2000), (Y2300, Y9999), (None, Y9999), (Y1500, None)]:
@@ -163,8 +175,9 @@ def gen_valid(tier, rng):
 
 # ------------------------------------------------------------------ qartod_compare
 
-def _vec(cells, dtype="uint8"):
-    """cell: int | ["m", backing int] (masked) | ["f", "p/q"] (a fractional float: not a flag)"""
+def _vec(cells, dtype="uint8", fill=None):
+    """cell: int | ["m", backing int] (masked) | ["f", "p/q"] (a fractional float: not a flag); fill: the masked
+    array's fill_value (np.ma.masked_equal(flags, 4) leaves 4 there; an export fill chosen by the caller)"""
     import numpy as np
 
     def val(c):
@@ -174,6 +187,8 @@ def _vec(cells, dtype="uint8"):
     data = [val(c) for c in cells]
     mask = [isinstance(c, list) and c[0] == "m" for c in cells]
     if any(mask):
+        if fill is not None:
+            return np.ma.array(np.array(data, dtype=dtype), mask=mask, fill_value=fill)
         return np.ma.array(np.array(data, dtype=dtype), mask=mask)
     return np.array(data, dtype=dtype)
 
@@ -187,7 +202,9 @@ class Compare(Adapter):
         from ioos_qc import qartod
 
         dts = case.get("dtypes") or ["uint8"] * len(case["vs"])
-        return core.call_impl(qartod.qartod_compare, {"vectors": [_vec(v, dt) for v, dt in zip(case["vs"], dts)]})
+        fills = case.get("fills") or [None] * len(case["vs"])
+        return core.call_impl(qartod.qartod_compare,
+                              {"vectors": [_vec(v, dt, fl) for v, dt, fl in zip(case["vs"], dts, fills)]})
 
     def model(self, case):
         def cell(c):
@@ -234,6 +251,11 @@ def gen_compare(tier, rng):
         dts = [rng.choice(["uint8", "int16", "int32", "int64", "float64"]) for _ in range(k)]
         vs = [[rng.choice(wide[dt]) if dt != "uint8" else rng.choice(CELLS) for _ in range(n)] for dt in dts]
         cases.append({"vs": vs, "dtypes": dts})
+    # masked vectors whose fill_value is itself a flag: a masked entry is "not evaluated" whatever lies under or beside it
+    for _ in range(150 if tier == "quick" else 1500):
+        k, n = rng.randint(1, 4), rng.randint(1, 8)
+        vs = [[rng.choice([1, 1, 2, 3, 9, ["m", 4], ["m", 1], ["m", 9]]) for _ in range(n)] for _ in range(k)]
+        cases.append({"vs": vs, "fills": [rng.choice([None, 1, 2, 3, 4, 4, 9]) for _ in range(k)]})
     # outside the domain: unequal lengths
     cases.append({"vs": [[1, 2], [1]]})
     return cases
